@@ -396,3 +396,10 @@ seed('c15-phs-draw-not-thinned', 'C15', [(PLDC, "                foundSample = k
 seed('c15-diameter-tolerance', 'C15', [(PHSC, "    if (dataPtr_->transverseDiameter_ != transverseDiameter)", "    if (std::abs(dataPtr_->transverseDiameter_ - transverseDiameter) > 1E-9)")], 'R15f')
 seed('c15-n-diameter-negated-eq', 'C15', [(PHSC, "    if (dataPtr_->transverseDiameter_ != transverseDiameter)", "    if (!(dataPtr_->transverseDiameter_ == transverseDiameter))")], None)
 seed('c17-perturb-loop-start-unconditional', 'C17', [(PSC, "        int posTemp = (index_before >= 0) ? index_before : pos_before + 1;", "        int posTemp = pos_before;")], 'R17f')
+seed('c06-so2-extent-half', 'C06', [(SO2C, "double ompl::base::SO2StateSpace::getMaximumExtent() const\n{\n    return pi;", "double ompl::base::SO2StateSpace::getMaximumExtent() const\n{\n    return .5 * pi;")], 'R06g')
+seed('c06-discrete-extent-off-by-one', 'C06', [('src/ompl/base/spaces/src/DiscreteStateSpace.cpp', "    return upperBound_ - lowerBound_;\n}\n\ndouble ompl::base::DiscreteStateSpace::getMeasure", "    return upperBound_ - lowerBound_ - 1;\n}\n\ndouble ompl::base::DiscreteStateSpace::getMeasure")], 'R06g')
+seed('c06-so3-extent-quarter', 'C06', [(SO3C, "    return .5 * pi;\n}", "    return .25 * pi;\n}")], 'R06g')
+seed('c06-so2-no-wrap', 'C06', [(SO2C, "    return (d > pi) ? 2.0 * pi - d : d;", "    return d;")], 'R06g')
+seed('c06-n-so2-extent-expr', 'C06', [(SO2C, "double ompl::base::SO2StateSpace::getMaximumExtent() const\n{\n    return pi;", "double ompl::base::SO2StateSpace::getMaximumExtent() const\n{\n    return 2.0 * pi / 2.0;")], None)
+seed('c06-n-time-extent-larger', 'C06', [('src/ompl/base/spaces/src/TimeStateSpace.cpp', "    return bounded_ ? maxTime_ - minTime_ : 1.0;", "    return bounded_ ? 2.0 * (maxTime_ - minTime_) : 1.0;")], None)
+seed('c06-time-bounded-extent-half', 'C06', [('src/ompl/base/spaces/src/TimeStateSpace.cpp', "    return bounded_ ? maxTime_ - minTime_ : 1.0;", "    return bounded_ ? 0.5 * (maxTime_ - minTime_) : 1.0;")], 'R06g')
